@@ -245,6 +245,17 @@ def layout_agreement(ctx, P, rule="KAS-LAYOUT"):
     wsrc, rsrc = tu.src(P.need("kastore_write_header", "kastore").body), tu.src(P.need("kastore_read_header", "kastore").body)
     ctx.ob(rule, "magic", "memcpy(header, KAS_MAGIC, 8)" in wsrc and "strncmp(header, KAS_MAGIC, 8)" in rsrc, tu.loc(P.need("kastore_read_header", "kastore").node),
            "magic written and compared over the same 8 bytes")
+    # several stores can follow one another on a stream: every absolute seek is relative to where THIS store started
+    seeks = []
+    for fn in tu.funcs.values():
+        for c in calls(fn.body):
+            if callee(c) == "fseek" and len(c.kids) >= 4 and "SEEK_SET" in tu.src(c):
+                seeks.append((fn, c))
+    for k, (fn, c) in enumerate(seeks):
+        off = estr(c.kids[2])
+        ctx.ob(rule, "seek-base|%s@%d" % (fn.name, k), "file_offset" in off, tu.loc(c),
+               "fseek(…, %s, SEEK_SET): array offsets are relative to the start of this store (self->file_offset)" % off[:60])
+    ctx.ob(rule, "seek-base|present", len(seeks) >= 1, tu.path, "%d absolute seek(s) in kastore.c" % len(seeks))
 
 
 def read_validated(ctx, P, rule="READ-VALIDATED", floor=8):
